@@ -6,8 +6,13 @@ RULE = ("mode 4: timed sequences of 10..60 well-formed STORE and streamed FETCH 
         "one, gaps 0, 1, 5, 29, 30, 31 s; daemon token absent (the case the property is about) or configured. Oracle "
         "(independent of the model, python sliding window): with no configured token a client address gets a STORE accepted "
         "iff fewer than 6 of its STOREs were accepted in the last 30 s (12 for streamed FETCH), whatever TOKEN it sends. "
-        "Admission of size / TTL / PoW: the payload cap is enforced by parse_request before the body is read, the TTL window "
-        "is C02's gate theorem and harness mode, the PoW validator is C19's. non-trivial = a sequence with a refused request; "
+        "mode 6: one STORE against a fresh daemon (real parse_request + handle_store) with store PoW difficulty 0/4/9/12/15/17, "
+        "TTL window [30|60, 3600|21600], payload cap 16/64/1024: declared length at, below and above the cap (also 2^40, 2^64, "
+        "malformed, absent, larger than the body sent, with little or no body sent), TTL at and one outside either bound, "
+        "malformed, 2^63, 2^64-1; nonces found by a python search with exactly the required zero bits, up to three bits "
+        "short, with all whole zero bytes but not the remaining bits, for another payload or another file name, missing, "
+        "malformed; PATH absent, plain, with directories, '..'. Oracle: python hashlib over the documented preimage, accepted "
+        "iff every check passes, and stored iff accepted. non-trivial = a sequence with a refused request; "
         "distinct = distinct outputs")
 ASSUMPTIONS = ["the TTL window and the store PoW predicate are decided by C02 and C19 (same code paths, their own checks)",
                "clock in whole seconds"]
@@ -23,9 +28,97 @@ def opt(b):
     return [0] if b is None else [1] + lp(b)
 
 
+import hashlib
+import re
+
+
+def zero_bits(dg):
+    n = 0
+    for b in dg:
+        if b == 0:
+            n += 8
+            continue
+        n += 8 - b.bit_length()
+        break
+    return n
+
+
+def store_digest(payload, fname, nonce):
+    return hashlib.sha256(hashlib.sha256(payload).digest() + len(payload).to_bytes(8, "big") + len(fname).to_bytes(4, "big")
+                          + fname + nonce.to_bytes(8, "big")).digest()
+
+
+def find_nonce(payload, fname, lo, hi, start):
+    """a nonce whose digest has between lo and hi leading zero bits"""
+    n = start
+    while True:
+        z = zero_bits(store_digest(payload, fname, n))
+        if lo <= z <= hi:
+            return n
+        n += 1
+
+
+def basename(p):
+    b = p.rsplit(b"/", 1)[-1]
+    return b"" if (not p or b in (b"", b".", b"..")) else b[:255]
+
+
+def admission_cases(rng, n):
+    cases = []
+    def mk(d, mn, mx, df, cap, declared, body, ttl, path, pow_, tag):
+        cases.append({"ints": [6, d, mn, mx, df, cap] + opt(declared) + lp(body) + opt(ttl) + opt(path) + opt(pow_), "tag": tag})
+    for _ in range(n):
+        d = rng.choice([0, 0, 4, 9, 9, 12, 12, 15, 17])
+        mn, mx, df, cap = rng.choice([30, 60]), rng.choice([3600, 21600]), 600, rng.choice([16, 64, 1024])
+        size = rng.choice([1, 2, cap - 1, cap, rng.randrange(1, cap + 1)])
+        body = bytes(rng.randrange(256) for _ in range(size))
+        path = rng.choice([None, None, b"a.txt", b"dir/sub/file.bin", b"x/..", b"weird name.tar.gz", b"/abs/p"])
+        fname = basename(path) if path else b""
+        kind = rng.choice(["ok", "ok", "size", "ttl", "pow", "pow", "pow"])
+        declared = str(size).encode()
+        ttl = rng.choice([None, str(mn).encode(), str(mx).encode(), b"600"])
+        pow_ = None
+        cap_d = min(d, 24)
+        if d > 0:
+            pow_ = str(find_nonce(body, fname, cap_d, 256, rng.randrange(1 << 20))).encode()
+        if kind == "size":
+            declared = rng.choice([str(cap + 1).encode(), str(cap + 1).encode(), str(2 ** 40).encode(), str(2 ** 64).encode(), b"18446744073709551615",
+                                   b"", b"-1", b"+3", b" 3", b"3 ", b"0x10", b"1e3", str(size + 1).encode(), None, b"007"])
+            if declared in (b"007",):
+                body = body[:7].ljust(7, b"z") if cap >= 7 else body
+                if d > 0:
+                    pow_ = str(find_nonce(body[:7], fname, cap_d, 256, 5)).encode()
+            if declared and re.fullmatch(rb"[0-9]+", declared) and int(declared) > cap:
+                body = body[:rng.choice([0, 1, len(body)])]      # nothing (or little) of the announced body is ever sent
+        elif kind == "ttl":
+            ttl = rng.choice([str(mn - 1).encode(), str(mx + 1).encode(), b"0", b"", b"abc", b"-5", b"60s", b"1.5", str(2 ** 63).encode(),
+                              str(2 ** 64 - 1).encode(), str(2 ** 64).encode(), b"99999999999999999999999"])
+        elif kind == "pow" and d > 0:
+            how = rng.choice(["near", "near", "near8", "missing", "garbage", "other-payload", "other-name", "exact"])
+            if how == "near":
+                pow_ = str(find_nonce(body, fname, max(0, cap_d - 3), cap_d - 1, rng.randrange(1 << 20))).encode()
+            elif how == "near8":   # at least the whole zero bytes of the difficulty, but not the remaining bits
+                lo = 8 * (cap_d // 8)
+                pow_ = str(find_nonce(body, fname, lo, cap_d - 1, rng.randrange(1 << 20))).encode() if lo < cap_d else pow_
+            elif how == "missing":
+                pow_ = None
+            elif how == "garbage":
+                pow_ = rng.choice([b"", b"abc", b"-1", b"12x", str(2 ** 64).encode()])
+            elif how == "other-payload":
+                other = bytes([body[0] ^ 1]) + body[1:]
+                pow_ = str(find_nonce(other, fname, cap_d, 256, 7)).encode()
+            elif how == "other-name":
+                pow_ = str(find_nonce(body, fname + b"2", cap_d, 256, 7)).encode()
+            else:
+                pow_ = str(find_nonce(body, fname, cap_d, cap_d, rng.randrange(1 << 20))).encode()
+        mk(d, mn, mx, df, cap, declared, body, ttl, path, pow_, "admission-" + kind)
+    return cases
+
+
 def generate(rng, tier):
     n = {"quick": 60, "search": 120, "thorough": 1000}[tier]
     cases = []
+    cases += admission_cases(rng, {"quick": 140, "search": 250, "thorough": 1500}[tier])
     # the historical bypass: a fresh TOKEN value on every request
     ev = []
     for i in range(10):
@@ -44,10 +137,65 @@ def generate(rng, tier):
     return cases
 
 
+def judge_admission(ints, impl):
+    d, mn, mx, df, cap = ints[1:6]
+    p = 6
+    def ropt():
+        nonlocal p
+        if ints[p] == 0:
+            p += 1; return None
+        n = ints[p + 1]; b = bytes(ints[p + 2:p + 2 + n]); p += 2 + n; return b
+    declared = ropt()
+    n = ints[p]; body = bytes(ints[p + 1:p + 1 + n]); p += 1 + n
+    ttl = ropt(); path = ropt(); pow_ = ropt()
+    if len(impl) != 2:
+        return {"fail": "C28|output-shape"}
+    code, stored = impl
+    def u64(b):
+        if b is None or not re.fullmatch(rb"[0-9]+", b) or int(b) >= 2 ** 64:
+            return None
+        return int(b)
+    reasons = []
+    size = u64(declared)
+    if size is None:
+        reasons.append("length-missing-or-malformed")
+    elif size > cap:
+        reasons.append("over-the-cap")
+    elif size > len(body):
+        reasons.append("body-shorter-than-declared")
+    else:
+        payload = body[:size]
+        t = df
+        if ttl is not None:
+            t = u64(ttl)
+            if t is not None and t >= 2 ** 63:
+                t -= 2 ** 64
+        if t is None or not (mn <= t <= mx):
+            reasons.append("ttl-outside-window")
+        if d > 0:
+            nonce = u64(pow_)
+            fname = basename(path) if path else b""
+            if nonce is None or zero_bits(store_digest(payload, fname, nonce)) < min(d, 24):
+                reasons.append("pow-invalid")
+    accepted = code == 0
+    res = {"nontrivial": bool(reasons) or d > 0}
+    if accepted and reasons:
+        res["fail"] = "C28|store-accepted-despite-" + reasons[0]
+    elif accepted and stored != 1:
+        res["fail"] = "C28|accepted-store-not-stored"
+    elif not accepted and not reasons:
+        res["fail"] = "C28|admissible-store-refused"
+    elif not accepted and stored != 0:
+        res["fail"] = "C28|refused-store-was-stored"
+    return res
+
+
 def judge(case, impl, model):
     ints = case["ints"]
     if impl and impl[0] in (-2000, -1000):
         return {"fail": f"C28|abnormal|{impl[:2]}"}
+    if ints[0] == 6:
+        return judge_admission(ints, impl)
     p = 1
     def ropt():
         nonlocal p
